@@ -672,6 +672,12 @@ def membership(leaf):
                 return (x.object_arg(), x.args()[0], s.op == '!=')
     if s.k == 'CXXMemberCallExpr' and s.callee and s.callee['name'] in ('count', 'contains') and s.args() and s.object_arg() is not None:
         return (s.object_arg(), s.args()[0], True)
+    # std::binary_search(c.begin(), c.end(), k) on a sorted sequence (sortedness is the caller's obligation: see sorted_before)
+    if s.k == 'CallExpr' and s.callee and s.callee['g'] == 'std::binary_search' and len(s.args()) == 3:
+        a0, a1 = s.args()[0].strip_all(), s.args()[1].strip_all()
+        if a0.k == 'CXXMemberCallExpr' and a0.callee and a0.callee['name'] in ('begin', 'cbegin') and a1.k == 'CXXMemberCallExpr' and \
+                a1.callee and a1.callee['name'] in ('end', 'cend') and key(a0.object_arg()) == key(a1.object_arg()):
+            return (a0.object_arg(), s.args()[2], True)
     if s.k == 'BinaryOperator' and s.op in ('==', '!=', '>', '<', '>=', '<=') and len(s.c) == 2:
         a, b = s.c[0].strip_all(), s.c[1].strip_all()
         for x, y, flip in ((a, b, False), (b, a, True)):
@@ -686,6 +692,20 @@ def membership(leaf):
                     return None
                 return (x.object_arg(), x.args()[0], truth)
     return None
+
+
+def sorted_before(fn, container_var, node):
+    """a std::sort / std::stable_sort of the whole container (default comparator) dominates node and nothing appends to it in between"""
+    cfg = fn.cfg
+    for x in fn.walk():
+        if x.k == 'CallExpr' and x.callee and x.callee['g'] in ('std::sort', 'std::stable_sort') and len(x.args()) == 2:
+            a0 = x.args()[0].strip_all()
+            if a0.k == 'CXXMemberCallExpr' and a0.callee and a0.callee['name'] == 'begin' and var_of(a0.object_arg()) == container_var and cfg.dominates(x, node):
+                later = [y for y in fn.walk() if y.k == 'CXXMemberCallExpr' and y.callee and y.callee['name'] in ('push_back', 'emplace_back', 'insert') and
+                         var_of(y.object_arg()) == container_var and cfg.reaches(x, y) and cfg.reaches(y, node)]
+                if not later:
+                    return True
+    return False
 
 
 def null_test(leaf):
